@@ -62,9 +62,17 @@ class Cfg:
     def gen(self, atom, gen, batch=BATCH, dtype=torch.float32):
         """a contiguous valid forward input for this configuration"""
         base = atom.split('+')[0].split('#')[0]
-        shape = (batch,) + self.shape
+        alt = base.endswith('~alt')      # same instance, another event shape (call histories with varying shapes)
+        edge = base.endswith('!edge')    # values exactly on the boundary of the domain
+        base = base.replace('~alt', '').replace('!edge', '')
+        shape = (batch,) + ((2,) + self.shape if alt else self.shape)
         if base == 'unit':
-            return 0.02 + 0.96 * torch.rand(shape, generator=gen, dtype=dtype)
+            u = 0.02 + 0.96 * torch.rand(shape, generator=gen, dtype=dtype)
+            if edge:
+                u.view(-1)[0] = 0.0
+                u.view(-1)[1] = 1.0
+                u.view(-1)[2] = 1e-9
+            return u
         if base == 'binary':
             return (torch.rand(shape, generator=gen, dtype=dtype) < 0.5).to(dtype)
         if base in ('inside', 'outside', 'mixed'):
@@ -186,16 +194,17 @@ def registry():
     add = lambda *a, **k: R.append(Cfg(*a, **k))
     S = (F4,)
     # --- element-wise / standard --------------------------------------------------------------------
-    add('Identity', 'transform', lambda: T.IdentityTransform(), S)
-    add('PointwiseAffine', 'transform', lambda: T.PointwiseAffineTransform(shift=torch.tensor([0.5, -1.0, 0.0, 2.0]), scale=torch.tensor([2.0, 0.5, -1.5, 1.0])), S)
-    add('Exp', 'transform', lambda: T.Exp(), S)
-    add('Tanh', 'transform', lambda: T.Tanh(), S)
+    add('Identity', 'transform', lambda: T.IdentityTransform(), S, atoms=['std', 'std~alt'])
+    add('PointwiseAffine/scalar', 'transform', lambda: T.PointwiseAffineTransform(shift=0.5, scale=2.0), S, atoms=['std', 'std~alt'])
+    add('PointwiseAffine', 'transform', lambda: T.PointwiseAffineTransform(shift=torch.tensor([0.5, -1.0, 0.0, 2.0]), scale=torch.tensor([2.0, 0.5, -1.5, 1.0])), S, atoms=['std', 'std~alt'])
+    add('Exp', 'transform', lambda: T.Exp(), S, atoms=['std', 'std~alt'])
+    add('Tanh', 'transform', lambda: T.Tanh(), S, atoms=['std', 'std~alt'])
     add('LogTanh', 'transform', lambda: T.LogTanh(cut_point=1), S, atoms=['std', 'wide'])
-    add('LeakyReLU', 'transform', lambda: T.LeakyReLU(), S)
-    add('Sigmoid', 'transform', lambda: T.Sigmoid(), S)
+    add('LeakyReLU', 'transform', lambda: T.LeakyReLU(), S, atoms=['std', 'std~alt'])
+    add('Sigmoid', 'transform', lambda: T.Sigmoid(), S, atoms=['std', 'std~alt'])
     add('Sigmoid/learn_temperature', 'transform', lambda: T.Sigmoid(temperature=1.5, learn_temperature=True), S, random_ctor=True,
         note='no constructor randomness, but a learned temperature that must travel')
-    add('Logit', 'transform', lambda: T.Logit(), S, domain='unit')
+    add('Logit', 'transform', lambda: T.Logit(), S, domain='unit', atoms=['unit', 'unit!edge', 'unit~alt'])
     add('GatedLinearUnit', 'transform', lambda: T.GatedLinearUnit(), S, ctx=(1,))
     add('CompositeCDF/Sigmoid+LinearCDF', 'transform', lambda: T.CompositeCDFTransform(T.Sigmoid(), T.PiecewiseLinearCDF([F4], num_bins=4)), S)
     add('Image/Sigmoid', 'transform', lambda: T.Sigmoid(), IMG, tier='thorough')
